@@ -456,24 +456,41 @@ DIGIT_BOUND = [12]   # harness-settable: max decimal digits materialised
 def big_to_radix(m, mt, args, tys, dty):
     x = deref(args[0])
     radix = args[1]
-    assert radix == 10
+    if is_sym(radix) or not (2 <= radix <= 256):
+        raise Unsupported('to_radix with radix %r' % (radix,))
+    R = radix
     mag = zabs(x)
     D = DIGIT_BOUND[0]
+    if R != 10:
+        D = int(math.ceil(D / math.log10(R))) + 1          # the bound is stated in decimal digits
     if not is_sym(mag):
-        ds = [int(c) for c in reversed(str(mag))]
+        ds = []
+        v = mag
+        while v:
+            ds.append(v % R)
+            v //= R
+        ds = ds or [0]
     else:
         # fork over digit count
-        k = m.choose_n(D + 2, lambda d: (mag == 0) if d == 0 else ((mag >= 10 ** D) if d == D + 1 else z3.And(mag >= 10 ** (d - 1), mag < 10 ** d)))
+        k = m.choose_n(D + 2, lambda d: (mag == 0) if d == 0 else ((mag >= R ** D) if d == D + 1 else z3.And(mag >= R ** (d - 1), mag < R ** d)))
         if k == D + 1:
             raise BoundExceeded('to_radix: more than %d digits' % D)
         if k == 0:
             ds = [0]
         else:
             ds = [m.fresh('d') for _ in range(k)]
+            m.mark_aux(ds)          # R^(k-1) <= mag < R^k is already in the path condition: the digits always exist
             for dgt in ds:
-                m.assume(z3.And(dgt >= 0, dgt <= 9))
-            m.assume(ds[-1] >= 1)
-            m.assume(mag == z3.Sum([dgt * 10 ** i for i, dgt in enumerate(ds)]))
+                m.assume(z3.And(dgt >= 0, dgt <= R - 1), aux=True)
+                m.set_bounds(dgt, 0, R - 1)
+            m.assume(ds[-1] >= 1, aux=True)
+            m.assume(mag == z3.Sum([dgt * R ** i for i, dgt in enumerate(ds)]), aux=True)
+            # remember which integer these digits spell (most significant first), so that an oracle reading the
+            # text back can name the integer directly instead of making the solver re-sum the digits
+            if R == 10:
+                if not hasattr(m, 'radix_origin'):
+                    m.radix_origin = {}
+                m.radix_origin[tuple(dgt.get_id() for dgt in reversed(ds))] = mag
     if mt.group(2) == 'be':
         ds = list(reversed(ds))
     vec = VecV(ds)
@@ -674,6 +691,41 @@ def big_bits2(m, mt, args, tys, dty):
         return x.bit_length()
     if BITS_MODE[0] == 'table':
         return bits_table(m, x)
+    if BITS_MODE[0] == 'model':
+        # fork on the bit length around the value of one model (the value is confined to a narrow range on the path);
+        # a feasible length outside the window ends the path as BoundExceeded (never silently dropped)
+        W = BITS_MODE[1] or 4
+        pos = len(m.decisions)
+        if pos < len(m.prefix):
+            k = m.prefix[pos]
+            m.decisions.append(k)
+            b = k[1]
+            m.assume(z3.And(x >= 2 ** (b - 1), x < 2 ** b) if b > 0 else (x == 0))
+            return b
+        m.solver.push()
+        r = m.solver.check()
+        if r != z3.sat:
+            m.solver.pop()
+            r2, mdl = m.check_fresh(True, want_model=True)
+            if r2 != z3.sat:
+                raise Infeasible()
+        else:
+            mdl = m.solver.model()
+            m.solver.pop()
+        b0 = mdl.eval(x, model_completion=True).as_long().bit_length()
+        cands = [b for b in range(max(0, b0 - W), b0 + W + 1)]
+        feas = [b for b in cands if m.feasible(z3.And(x >= 2 ** (b - 1), x < 2 ** b) if b > 0 else (x == 0))]
+        lo, hi = min(cands), max(cands)
+        if m.feasible(z3.Or(x >= 2 ** hi, x < (2 ** (lo - 1) if lo > 0 else 0))):
+            raise BoundExceeded('bits: value not confined to the window %d..%d' % (lo, hi))
+        if not feas:
+            raise Infeasible()
+        for b in feas[1:]:
+            m.worklist.append(tuple(m.decisions) + (('bits', b),))
+        b = feas[0]
+        m.decisions.append(('bits', b))
+        m.assume(z3.And(x >= 2 ** (b - 1), x < 2 ** b) if b > 0 else (x == 0))
+        return b
     if BITS_MODE[0] == 'fixed':
         # harness promises 2^(b-1) <= x < 2^b (b = BITS_MODE[1]); verified here with one query
         b = BITS_MODE[1]
@@ -724,13 +776,37 @@ def big_iter_u32(m, mt, args, tys, dty):
     ws = [m.fresh('w') for _ in range(k)]
     for w in ws:
         m.assume(z3.And(w >= 0, w < 2 ** 32))
+        m.set_bounds(w, 0, 2 ** 32 - 1)
     if ws:
         m.assume(ws[-1] >= 1)
         m.assume(x == z3.Sum([w * 2 ** (32 * i) for i, w in enumerate(ws)]))
     return U32Digits(ws)
 
 
-@summary(r'<(?:num_bigint::(?:biguint::)?(?:iter::)?)?U32Digits as Iterator>::next')
+@summary(r'(?:num_bigint::)?BigUint::iter_u64_digits')
+def big_iter_u64(m, mt, args, tys, dty):
+    x = deref(args[0])
+    W = max(2, (WORD_BOUND[0] + 1) // 2)
+    if not is_sym(x):
+        ws = []
+        while x:
+            ws.append(x & 0xffffffffffffffff)
+            x >>= 64
+        return U32Digits(ws)
+    k = m.choose_n(W + 2, lambda w: (x == 0) if w == 0 else ((x >= 2 ** (64 * W)) if w == W + 1 else z3.And(x >= 2 ** (64 * (w - 1)), x < 2 ** (64 * w))))
+    if k == W + 1:
+        raise BoundExceeded('iter_u64_digits: more than %d words' % W)
+    ws = [m.fresh('w') for _ in range(k)]
+    for w in ws:
+        m.assume(z3.And(w >= 0, w < 2 ** 64))
+        m.set_bounds(w, 0, 2 ** 64 - 1)
+    if ws:
+        m.assume(ws[-1] >= 1)
+        m.assume(x == z3.Sum([w * 2 ** (64 * i) for i, w in enumerate(ws)]))
+    return U32Digits(ws)
+
+
+@summary(r'<(?:num_bigint::(?:biguint::)?(?:iter::)?)?U(?:32|64)Digits as Iterator>::next')
 def u32digits_next(m, mt, args, tys, dty):
     it = deref(args[0])
     if it.pos >= len(it.words):
@@ -822,11 +898,12 @@ def str_slice(v):
 @summary(r'(?:num_bigint::)?Big(?:Int|Uint)::to_str_radix')
 def big_to_str_radix(m, mt, args, tys, dty):
     x = deref(args[0])
-    vec = big_to_radix(m, re.match(r'.*Big(Int|Uint)::to_radix_(le|be)', 'BigUint::to_radix_be'), [Ref([zabs(x)], 0), args[1]], tys, dty)
+    # decide the sign before the digit expansion: the query is much cheaper without the digit-sum constraint
+    neg = m.branch_bool(x < 0) if (is_sym(x) or x < 0) else False
+    vec = big_to_radix(m, re.match(r'.*Big(Int|Uint)::to_radix_(le|be)', 'BigUint::to_radix_be'), [Ref([-x if neg else x], 0), args[1]], tys, dty)
     chars = [d + 48 for d in vec.items]
-    if is_sym(x) or x < 0:
-        if m.branch_bool(x < 0):
-            chars = [45] + chars
+    if neg:
+        chars = [45] + chars
     return StrV(chars)
 
 
@@ -1226,7 +1303,9 @@ def render_arg(m, a, plus, out):
             out.extend(ord(c) for c in s)
     elif t in ('&str', 'str', 'std::string::String', 'String', '&std::string::String'):
         out.extend(str_items(v))
-    elif t in ('num_bigint::BigInt', 'BigInt', 'num_bigint::BigUint', 'BigUint', '&num_bigint::BigInt', '&num_bigint::BigUint'):
+    elif t in ('num_bigint::BigInt', 'BigInt', 'num_bigint::BigUint', 'BigUint', '&num_bigint::BigInt', '&num_bigint::BigUint') or ('Cow<' in t and isinstance(v, Agg) and v.name == 'Cow'):
+        if isinstance(v, Agg) and v.name == 'Cow':
+            v = deref(v.fields[0])
         st = big_to_str_radix(m, None, [Ref([v], 0), 10], None, None)
         out.extend(st.items)
     else:
@@ -1288,6 +1367,9 @@ def render_arg_opts(m, a, opt, out):
     if plain and not plus:
         render_arg(m, a, plus, out)
         return
+    if 'Cow<' in t and isinstance(v, Agg) and v.name == 'Cow':
+        v = deref(v.fields[0])
+        t = 'BigUint'
     if t in ('num_bigint::BigInt', 'BigInt', 'num_bigint::BigUint', 'BigUint', '&num_bigint::BigInt', '&num_bigint::BigUint'):
         st = big_to_str_radix(m, None, [Ref([v], 0), 10], None, None)
         items = list(st.items)
@@ -1615,6 +1697,11 @@ def str_trim_right_matches(m, mt, args, tys, dty):
     sl = str_slice(args[0])
     f = args[1]
     hi = sl.hi
+    if isinstance(deref(f), int) or isinstance(deref(f), str):          # a char (or one-char str) pattern instead of a closure
+        p = _pattern_codes(f)[0]
+        while hi > sl.lo and char_eq(m, sl.base[hi - 1], p):
+            hi -= 1
+        return SliceV(sl.base, sl.lo, hi)
     holder = [f] if not isinstance(f, Ref) else None
     fref = f if isinstance(f, Ref) else Ref(holder, 0)
     while hi > sl.lo:
@@ -3397,3 +3484,219 @@ def range_contains(m, mt, args, tys, dty):
 @summary(r'<(?:std::ops::|core::ops::)?Range(?:Inclusive)?<(%s)> as (?:std::ops::|core::ops::)?RangeBounds<.*>>::contains::<.*>' % INT)
 def range_contains_trait(m, mt, args, tys, dty):
     return range_contains(m, re.match(r'(?:std::ops::|core::ops::)?Range(Inclusive)?::<(%s)>::contains::<.*>' % INT, 'Range::<i64>::contains::<i64>'), args, tys, dty)
+
+
+
+# ---- float round trip support (C14): std::parse::<f64> and BigUint::to_f64 by contract tokens
+class ParsedF64:
+    """the f64 that std's correctly-rounded parser returns for this text (contract: nearest float to the denoted value)"""
+    def __init__(self, items, neg=False):
+        self.items, self.neg = list(items), neg
+
+
+class BigToF64:
+    """the f64 nearest to this integer (num-bigint contract); exact when the integer is representable"""
+    def __init__(self, x, neg=False):
+        self.x, self.neg = x, neg
+
+
+class PowiF64:
+    """f64::powi(base, k) as a token (std documents no precision for it)"""
+    def __init__(self, base, k):
+        self.base, self.k = base, k
+
+
+class F64Prod:
+    """IEEE product of two float tokens"""
+    def __init__(self, a, b, neg=False):
+        self.a, self.b, self.neg = a, b, neg
+
+
+class F64Quot:
+    """IEEE quotient of two floats / float tokens"""
+    def __init__(self, a, b, neg=False):
+        self.a, self.b, self.neg = a, b, neg
+
+
+class IntToF64:
+    """`n as f64`: the f64 nearest to the integer (IEEE round-to-nearest-even)"""
+    def __init__(self, x, neg=False):
+        self.x, self.neg = x, neg
+
+
+FLOAT_TOKENS = (ParsedF64, BigToF64, PowiF64, F64Prod, F64Quot, IntToF64)
+
+
+@summary(r'(?:std::|core::)?f64::<impl f64>::powi')
+def f64_powi(m, mt, args, tys, dty):
+    base, k = args
+    if isinstance(base, float) and not is_sym(k) and abs(k) <= 22 and base == 10.0 and FLOAT_TOKEN_MODE[0] != 'always':
+        return base ** k          # exact in f64
+    return PowiF64(base, k)
+
+
+FLOAT_TOKEN_MODE = ['auto']
+
+
+@summary(r'core::str::<impl str>::parse::<f64>')
+def str_parse_f64(m, mt, args, tys, dty):
+    return mk_enum('Result', 'Ok', [ParsedF64(str_items(args[0]))])
+
+
+@summary(r'<%s as (?:num_traits::)?ToPrimitive>::to_f64' % BIG)
+def big_to_f64(m, mt, args, tys, dty):
+    return some(BigToF64(deref(args[0])))
+
+
+for _i, (_n, _rx, _fn) in enumerate(SUMMARIES):
+    if _n == 'float_neg':
+        def _fneg(m, mt, args, tys, dty, _orig=_fn):
+            v = args[0]
+            if isinstance(v, ParsedF64):
+                return ParsedF64(v.items, not v.neg)
+            if isinstance(v, BigToF64):
+                return BigToF64(v.x, not v.neg)
+            if isinstance(v, F64Prod):
+                return F64Prod(v.a, v.b, not v.neg)
+            if isinstance(v, F64Quot):
+                return F64Quot(v.a, v.b, not v.neg)
+            if isinstance(v, IntToF64):
+                return IntToF64(v.x, not v.neg)
+            return _orig(m, mt, args, tys, dty)
+        SUMMARIES[_i] = (_n, _rx, _fneg)
+
+
+@summary(r'<f64 as Into<Option<f64>>>::into|<Option<f64> as From<f64>>::from')
+def f64_into_option(m, mt, args, tys, dty):
+    return some(args[0])
+
+
+@summary(r'(?:std::)?f64::<impl f64>::(floor|ceil|trunc|round|abs|sqrt|exp2|log10|log2|ln)|core::f64::<impl f64>::(floor|ceil|trunc|round|abs)')
+def f64_math(m, mt, args, tys, dty):
+    x = args[0]
+    if not isinstance(x, float):
+        raise Unsupported('float math on a symbolic value')
+    op = mt.group(1) or mt.group(2)
+    return {'floor': math.floor, 'ceil': math.ceil, 'trunc': math.trunc, 'round': round, 'abs': abs, 'sqrt': math.sqrt,
+            'exp2': lambda v: 2.0 ** v, 'log10': math.log10, 'log2': math.log2, 'ln': math.log}[op](x) * 1.0
+
+
+@summary(r'<&mut \[u8\] as std::io::Write>::write_fmt')
+def slice_io_write_fmt(m, mt, args, tys, dty):
+    cur = args[0].get()            # the &mut [u8] cursor: writing advances it
+    sl = as_slice(cur)
+    out = []
+    # byte buffers need concrete text: fix machine-integer arguments first, while the path condition is still cheap
+    for a in args[1].args:
+        if re.fullmatch(INT, a.ty):
+            v = deref(a.ref)
+            if is_sym(v):
+                a.ref = Ref([m.concretize(v, limit=64)], 0)
+    render_template(m, args[1], out)
+    flat = []
+    for c in out:
+        if isinstance(c, IntRender):
+            val = m.concretize(c.t, limit=64)           # byte buffers need concrete text: fork over the feasible values
+            txt = ('+' if (c.plus and val >= 0) else '') + str(val)
+            flat.extend(ord(ch) for ch in txt)
+        else:
+            flat.append(c)
+    out = flat
+    if len(out) > len(sl):
+        return mk_enum('Result', 'Err', [Agg('struct', 'io::Error', [])])
+    for i, c in enumerate(out):
+        sl.base[sl.lo + i] = c
+    args[0].set(SliceV(sl.base, sl.lo + len(out), sl.hi))
+    return mk_enum('Result', 'Ok', [UNIT()])
+
+
+# ---- exact IEEE reasoning on symbolic floats with a CONCRETE exponent field (FloatV) and on `n as f64` tokens ----------
+def _floatv_rational(m, a):
+    """FloatV with concrete exponent field -> ('nan'|'inf'|'fin', sgn(+1/-1, concrete after a fork), M (int term), E) : value = sgn*M*2^E"""
+    ebits, mbits = FLOAT_FMT[a.ty][:2]
+    if is_sym(a.exp):
+        raise Unsupported('float comparison with a symbolic exponent field')
+    bias = 2 ** (ebits - 1) - 1
+    sgn = -1 if m.branch_bool(a.sign == 1) else 1
+    if a.exp == 2 ** ebits - 1:
+        return ('nan' if m.branch_bool(a.frac != 0) else 'inf'), sgn, None, None
+    if a.exp == 0:
+        return 'fin', sgn, a.frac, 1 - bias - mbits
+    return 'fin', sgn, a.frac + 2 ** mbits, a.exp - bias - mbits
+
+
+def round_int_to_f64(m, n):
+    """the integer value of `n as f64` (round to nearest, ties to even) for an integer term |n| < 2^64; forks on the bit length"""
+    neg = m.branch_bool(n < 0) if is_sym(n) else (n < 0)
+    mag = -n if neg else n
+    if not is_sym(mag):
+        return int(float(n))
+    if m.branch_bool(mag < 2 ** 53):
+        return n
+    b = m.choose_n(12, lambda i: z3.And(mag >= 2 ** (53 + i), mag < 2 ** (54 + i)) if i < 11 else (mag >= 2 ** 64))
+    if b == 11:
+        raise BoundExceeded('n as f64 with |n| >= 2^64')
+    sh = b + 1                                   # bit length 54+b: drop sh low bits
+    q, r = m.pow2_split(mag, sh)
+    half = 2 ** (sh - 1)
+    q2, odd = m.pow2_split(q, 1)
+    up = m.branch_bool(z3.Or(r > half, z3.And(r == half, odd == 1)))
+    res = (q + 1) * 2 ** sh if up else q * 2 ** sh
+    return -res if neg else res
+
+
+def float_cmp(m, op, x, y):
+    """IEEE comparison between FloatV (concrete exponent field) / python float / IntToF64 operands; returns bool or z3 Bool"""
+    def rat(v):
+        if isinstance(v, FloatV):
+            return _floatv_rational(m, v)
+        if isinstance(v, IntToF64):
+            r = round_int_to_f64(m, v.x)
+            return 'fin', 1, (-r if v.neg else r), 0
+        if isinstance(v, float):
+            if v != v:
+                return 'nan', 1, None, None
+            if v in (float('inf'), float('-inf')):
+                return 'inf', (1 if v > 0 else -1), None, None
+            num, den = v.as_integer_ratio()
+            return 'fin', 1, num, -(den.bit_length() - 1)
+        raise Unsupported('float comparison on %s' % type(v).__name__)
+    ka, sa, Ma, Ea = rat(x)
+    kb, sb, Mb, Eb = rat(y)
+    if ka == 'nan' or kb == 'nan':
+        return op == 'Ne'
+    if ka == 'inf' or kb == 'inf':
+        va = sa * 2 if ka == 'inf' else 0          # order: -inf < finite < +inf
+        vb = sb * 2 if kb == 'inf' else 0
+        if ka == 'fin':
+            va = 0
+        if kb == 'fin':
+            vb = 0
+        l, r = va, vb
+    else:
+        E0 = min(Ea, Eb)
+        l = sa * Ma * 2 ** (Ea - E0)
+        r = sb * Mb * 2 ** (Eb - E0)
+    return {'Eq': lambda: l == r, 'Ne': lambda: l != r, 'Lt': lambda: l < r, 'Le': lambda: l <= r, 'Gt': lambda: l > r, 'Ge': lambda: l >= r}[op]()
+
+
+def float_to_int(m, v, ity):
+    """`v as <int>` for FloatV with a concrete exponent field: truncation toward zero, saturating, NaN -> 0"""
+    lo, hi = INT_RANGE[ity]
+    k, sgn, M, E = _floatv_rational(m, v)
+    if k == 'nan':
+        return 0
+    if k == 'inf':
+        return hi if sgn > 0 else lo
+    if E >= 0:
+        mag = M * 2 ** E
+    else:
+        mag = m.pow2_split(M, -E)[0] if is_sym(M) else (M >> (-E))
+    val = sgn * mag
+    if not is_sym(val):
+        return max(lo, min(hi, val))
+    if m.branch_bool(val > hi):
+        return hi
+    if m.branch_bool(val < lo):
+        return lo
+    return val
